@@ -1984,6 +1984,8 @@ class Evaluator:
         c = self.ev(n.test, live)
         a = self.ev(n.body, AND(live, c))
         b = self.ev(n.orelse, AND(live, NOT(c)))
+        if a == c and c[0] in ("attr", "param", "sub", "elem") and ast.unparse(n.test) == ast.unparse(n.body):
+            return ("or", (c, b))  # `x if x else y` is `x or y`
         return ITE(c, a, b)
 
     def e_NamedExpr(self, n, live):
@@ -2100,6 +2102,16 @@ class Evaluator:
         for k in n.keywords:
             v = self.ev(k.value, live)
             kws.append((k.arg if k.arg is not None else "**", v))
+        # f(**{"a": x, "b": y}) is f(a=x, b=y)
+        if any(k_ == "**" and v_[0] == "dict" and v_[1] and all(kk[0] == "const" and isinstance(kk[1], str) for kk, _ in v_[1]) for k_, v_ in kws):
+            kws2 = []
+            for k_, v_ in kws:
+                if k_ == "**" and v_[0] == "dict" and v_[1] and all(kk[0] == "const" and isinstance(kk[1], str) for kk, _ in v_[1]):
+                    for kk, vv in v_[1]:
+                        kws2 = [(a_, b_) for a_, b_ in kws2 if a_ != kk[1]] + [(kk[1], vv)]
+                else:
+                    kws2.append((k_, v_))
+            kws = kws2
         # stable: named keywords sorted, '**' spreads keep their relative order at the end
         named = sorted([kv for kv in kws if kv[0] != "**"], key=lambda kv: kv[0])
         spreads = [kv for kv in kws if kv[0] == "**"]
